@@ -7,8 +7,9 @@ import numpy as np  # noqa: E402
 G = fm.UniformGrid((4, 3))                        # cells 3 x 2
 G2 = fm.UniformGrid((4, 3), axes_reversed=True)   # same geometry, data shape (2, 3)
 H = fm.UniformGrid((5, 3))
+GC = fm.UniformGrid((4, 3), crs="EPSG:25832")     # the node coordinates of G, read in another CRS
 NG = fm.NoGrid()
-GRIDS = {"none": None, "g": G, "g2": G2, "h": H, "nogrid": NG}
+GRIDS = {"none": None, "g": G, "g2": G2, "h": H, "gc": GC, "nogrid": NG}
 M_CANON = np.array([[True, False], [False, False], [False, True]])
 N_CANON = np.array([[False, False], [True, False], [False, False]])
 H_M = np.array([[True, False], [False, False], [False, True], [False, False]])
@@ -23,13 +24,18 @@ def mask_for(tok, gridtok):
     if tok == "E0":
         return np.ma.nomask
     if tok == "E":
-        shape = {"g": (3, 2), "g2": (2, 3), "h": (4, 2)}[gridtok]
+        shape = {"g": (3, 2), "g2": (2, 3), "h": (4, 2), "gc": (3, 2)}[gridtok]
         return np.zeros(shape, dtype=bool)
     if gridtok == "h":
         return H_M if tok == "M" else H_N
+    if gridtok == "gc":
+        gridtok = "g"
     canon = M_CANON if tok == "M" else N_CANON
     grid = G2 if gridtok == "g2" else G
     return grid.from_canonical(canon)
+
+
+UNITS_STR = {"ms": "m s", "kms": "km s", "s2": "s2"}
 
 
 def make_info(i):
@@ -37,7 +43,7 @@ def make_info(i):
     if i["foo"] != "absent":
         meta["foo"] = None if i["foo"] == "none" else i["foo"]
     return fm.Info(time=None if i["time"] == "none" else day(0), grid=GRIDS[i["grid"]],
-                   units=None if i["units"] == "none" else i["units"],
+                   units=None if i["units"] == "none" else UNITS_STR.get(i["units"], i["units"]),
                    mask=mask_for(i["mask"], i["grid"]), **meta)
 
 
@@ -46,8 +52,8 @@ def grid_tok(g):
         return "none"
     if isinstance(g, fm.NoGrid):
         return "nogrid"
-    for tok in ("g", "g2", "h"):
-        if g == GRIDS[tok]:        # StructuredGrid.__eq__ compares geometry and layout
+    for tok in ("g", "g2", "h", "gc"):
+        if g == GRIDS[tok] and g.crs == GRIDS[tok].crs:        # StructuredGrid.__eq__ compares geometry and layout
             return tok
     return "?"
 
@@ -65,8 +71,8 @@ def mask_tok(m, g):
     if arr.ndim > 0 and not arr.any():
         return "E"
     gt = grid_tok(g)
-    cands = {"M": mask_for("M", gt if gt in ("g", "g2", "h") else "g"),
-             "N": mask_for("N", gt if gt in ("g", "g2", "h") else "g")}
+    cands = {"M": mask_for("M", gt if gt in ("g", "g2", "h", "gc") else "g"),
+             "N": mask_for("N", gt if gt in ("g", "g2", "h", "gc") else "g")}
     for tok, ref in cands.items():
         if arr.shape == ref.shape and np.array_equal(arr, ref):
             return tok
@@ -86,8 +92,9 @@ def project(info):
     if "foo" in info.meta:
         foo = "none" if info.meta["foo"] is None else str(info.meta["foo"])
     u = info.units
+    ustr = "none" if u is None else {"m * s": "ms", "km * s": "kms", "m s": "ms", "km s": "kms", "s ** 2": "s2", "s2": "s2"}.get(f"{u:~}", f"{u:~}")
     return {"time": "none" if info.time is None else "t", "grid": grid_tok(info.grid),
-            "units": "none" if u is None else f"{u:~}", "mask": mask_tok(info.mask, info.grid), "foo": foo}
+            "units": ustr, "mask": mask_tok(info.mask, info.grid), "foo": foo}
 
 
 def run_case(case):
@@ -96,6 +103,8 @@ def run_case(case):
     for inp in inputs:
         if case["via"] == "pass":
             out >> fm.adapters.Scale(1.0) >> inp  # pylint: disable=expression-not-assigned
+        elif case["via"] == "sumtime":
+            out >> fm.adapters.SumOverTime(per_time=True) >> inp  # pylint: disable=expression-not-assigned
         else:
             out >> inp  # pylint: disable=pointless-statement
     for inp in inputs:
